@@ -473,9 +473,24 @@ class Interposer:
                 return o["sleep"](seconds)
             me.sched.point("sleep", "")
 
+        def vglob(pattern, **kw):
+            # directory listing of a virtual folder: one scheduling point, the matching files of that moment
+            if not v(pattern) or me.sched is None:
+                return o["glob"](pattern, **kw)
+            import fnmatch
+            s = me.sched
+            d, mask = os.path.split(pattern)
+            s.point("glob", d)
+            r = sorted(p for p in s.vfs.files if os.path.dirname(p) == d and fnmatch.fnmatchcase(os.path.basename(p), mask))
+            s.record_result(("glob", pattern, tuple(r)))
+            return r
+
         import time as _time
+        import glob as _glob
         o["sleep"] = _time.sleep
+        o["glob"] = _glob.glob
         _time.sleep = vsleep
+        _glob.glob = vglob
         builtins.open = vopen
         os.fsync = vfsync
         os.open = vos_open
@@ -504,7 +519,9 @@ class Interposer:
         os.remove = o["remove"]
         os.getpid = o["getpid"]
         import time as _time
+        import glob as _glob
         _time.sleep = o["sleep"]
+        _glob.glob = o["glob"]
 
 
 # ------------------------------------------------------------------------------------------------ explorer
